@@ -316,6 +316,50 @@ def refuse_case(suite, i):
     return ("raise", "ValidationError"), (o if o[0] == "raise" else ("returned", repr(o[1])[:40]))
 
 
+def special_case(i):
+    """Aggregate on encodings of curve points with y at the sign boundary / y.c1 = 0 (not
+    subgroup points - Aggregate only decodes and adds): [R] -> R, [R, S] -> R + S, nested"""
+    from ..model import zcash
+
+    HALF = zcash.HALF
+    ys = [(a_, HALF + d_) for d_ in (0, 1) for a_ in range(0, 16)] + [(3, 0), (HALF, 0), (HALF + 1, 0), (0, 5)]
+    pts = zcash.g2_points_with_y(ys)
+    Rm = pts[i % len(pts)]
+    Sm = MB.sign_point("basic", 7, b"x")
+    out = []
+    C = BL.suite_cls("basic")
+    encR, encS = MB.g2_bytes(Rm), MB.g2_bytes(Sm)
+    for lbl, lst, exp in (("[R]", [encR], Rm), ("[R,S]", [encR, encS], E2.add(Rm, Sm)), ("[S,R]", [encS, encR], E2.add(Rm, Sm)),
+                          ("[R,R]", [encR, encR], E2.double(Rm)), ("[R,-R,S]", [encR, MB.g2_bytes(E2.neg(Rm)), encS], Sm)):
+        o = BL.call(C.Aggregate, lst)
+        got = ("ok", bytes(o[1])) if o[0] == "ok" and isinstance(o[1], (bytes, bytearray)) else o
+        out.append((lbl, ("ok", MB.g2_bytes(exp)), got))
+    o = BL.call(C.Aggregate, [C.Aggregate([encR]), encS]) if True else None
+    out.append(("[[R],S]", ("ok", MB.g2_bytes(E2.add(Rm, Sm))), ("ok", bytes(o[1])) if o[0] == "ok" else o))
+    return out
+
+
+def task_special(a, env):
+    r = R("Aggregate:boundary-sign-and-non-subgroup-points")
+    for i in a["idx"]:
+        for lbl, exp, got in special_case(i):
+            r.ev += 1
+            r.transitions += 1
+            r.dk.add((i, lbl))
+            if exp != got:
+                r.viol("C03:Aggregate:special-point:%s" % lbl, ME + ":replay_special", {"i": i}, exp, got)
+    r.states = len(a["idx"])
+    r.sample({"points": "curve points of E'(Fp2) with y.c1 = (p-1)/2, (p+1)/2, y.c1 = 0 (cube-root construction)", "lists": ["[R]", "[R,S]", "[R,R]", "[R,-R,S]", "[[R],S]"]})
+    return r
+
+
+def replay_special(a):
+    for lbl, exp, got in special_case(a["i"]):
+        if exp != got:
+            return {"list": lbl, "expected": exp, "observed": got}
+    return None
+
+
 def task_refuse(a, env):
     r = R("Aggregate:refusals")
     for suite in BL.SUITES:
@@ -531,6 +575,8 @@ def run(ctx):
                                      "lo": lo, "step": step, "sample": lo == 0 and st is fstates[1]}))
     nst += len(fstates)
     tasks.append(("refuse", {}))
+    for i in range(0, 8 if q else 16, 2):
+        tasks.append(("special", {"idx": [i, i + 1]}))
     sp = [(x, y) for x in BL.SUITES for y in BL.SUITES if x != y]
     for st in ([[(0, 0), (1, 1)]] if q else [[(0, 0), (1, 1)], [(0, 0)], [(0, 1), (1, 0), (2, 2)]]):
         for i in range(0, len(sp), 2):
